@@ -386,15 +386,23 @@ def check_order(ctx: Context, rep, rule: str) -> None:
            message="the listed record is the one returned by Shard.close "
            "(hash included)")
     ex = ctx.fn(f"{FILLER}:DatasetFiller.__exit__")
+    # (_update_infos is read in its inlined form, see inline.FORCE_INLINE)
+    closes = lambda n: n.kind == "for" and any(  # noqa: E731
+        isinstance(c, ast.Call) and ctx.is_call(ex, c, method="close_shard")
+        for c in ast.walk(n.ast))
+    never_after(ctx, rep, rule, ex, closes,
+                call_pred(ctx, ex, "ShardsList.write_config"),
+                "__exit__: close loop -> shard lists written")
     must_precede(ctx, rep, rule, ex,
-                 lambda n: n.kind == "for",
-                 call_pred(ctx, ex, method="_update_infos"),
-                 "__exit__: close loop -> _update_infos")
-    must_precede(ctx, rep, rule, ex,
-                 call_pred(ctx, ex, method="_update_infos"),
+                 lambda n: n.kind in ("for", "stmt") and any(
+                     isinstance(c, ast.Call) and ctx.is_call(
+                         ex, c, "ShardsList.write_config")
+                     for c in ast.walk(n.ast)),
                  call_pred(ctx, ex, "DatasetWriting.write_config"),
-                 "__exit__: _update_infos -> dataset.write_config")
-    fl = [n for n in ex.body_nodes() if isinstance(n, ast.For)]
+                 "__exit__: shard lists written -> dataset.write_config")
+    fl = [n for n in ex.body_nodes() if isinstance(n, ast.For) and any(
+        isinstance(c, ast.Call) and ctx.is_call(ex, c, method="close_shard")
+        for c in ast.walk(n))]
     rep.ob(rule, len(fl) == 1 and "_current_shards_progress" in "".join(
         ast.unparse(s) for s in ex.node.body) and any(
             ctx.is_call(ex, c, method="close_shard") for c in ast.walk(fl[0])
